@@ -125,7 +125,7 @@ MUTATIONS = [
     ("dyn-decode-enum-bits", DY, "            auto bitsize = std::ceil(std::log2(max_value+1));\n\n            auto enum_value = DecodeUnsigned", "            auto bitsize = std::ceil(std::log2(max_value));\n\n            auto enum_value = DecodeUnsigned", ["C13"]),
     ("dyn-encode-array-short", DY, "            for (unsigned i=0; i<type.size; i++) {\n                auto encoded = _Encode(*type.underlying_type, j[i]);", "            for (unsigned i=0; i+1<type.size || i==0; i++) {\n                auto encoded = _Encode(*type.underlying_type, j[i]);", ["C13"]),
     ("dyn-decode-double-as-float", DY, "            double data;\n            auto word = buffer.GetWord(64);\n            std::memcpy(&data, &word, sizeof(data));", "            double data;\n            auto word = buffer.GetWord(64);\n            float tmp; std::memcpy(&data, &word, sizeof(data)); tmp = data; data = tmp;", ["C13"]),
-    ("static-array-fromjson-short", "plugins/fcp_cpp/fcp_cpp/decoders.h", "for (std::size_t i=0; i<N && i<j.size(); i++) {", "for (std::size_t i=0; i+1<N && i<j.size(); i++) {", ["C13"]),
+    ("static-array-fromjson-short", "plugins/fcp_cpp/fcp_cpp/decoders.h", "for (std::size_t i=0; i<N && i<j.size(); i++) {", "for (std::size_t i=0; i+1<N && i<j.size(); i++) {", ["C13", "C03"]),
     ("static-signed-decodejson-unsigned", "plugins/fcp_cpp/fcp_cpp/decoders.h", "        auto word = buffer.GetWord(BitSize, true, endianess);\n        return Signed(static_cast<UnderlyingType>(word));", "        auto word = buffer.GetWord(BitSize, BitSize != 13, endianess);\n        return Signed(static_cast<UnderlyingType>(word));", ["C13", "C03"]),
     ("serde-array-last-elem", S, "    for i in range(type.size):\n        _encode(buffer, fcp, type.underlying_type, data[i])", "    for i in range(type.size):\n        _encode(buffer, fcp, type.underlying_type, data[min(i, 1)])", ["C01", "C02"]),
 ]
